@@ -263,8 +263,10 @@ impl DependencySnapshot {
                         name,
                         order: 0,
                         dependencies: dependencies.clone(),
-                        hint_dependencies_available: cache
-                            .are_dependencies_available_for(solvable_id),
+                        // Whether the provider hinted that the dependencies are available is
+                        // only known once the candidates of the package have been captured,
+                        // see below.
+                        hint_dependencies_available: false,
                     };
 
                     result.solvables.insert(solvable_id, solvable);
@@ -312,12 +314,13 @@ impl DependencySnapshot {
                 .sort_candidates(&cache, &mut solvables)
                 .await;
 
-            for (order, solvable) in solvables.into_iter().enumerate() {
+            for (order, solvable_id) in solvables.into_iter().enumerate() {
                 let solvable = result
                     .solvables
-                    .get_mut(solvable)
+                    .get_mut(solvable_id)
                     .expect("missing solvable");
                 solvable.order = order as u32;
+                solvable.hint_dependencies_available = available_hints.contains(&solvable_id);
             }
         }
 
